@@ -63,10 +63,8 @@ def run(ctx):
             keep = c.pop("keep")
             res = ctx.tlc("reassembler", "MC_Conc", mc_cfg(**c), workers=core.NCPU, timeout=3000, heap="16g")
             n = 0
-            for b in res.lines("BEH"):
-                nsched += 1
-                if keep < 1.0 and rng.random() > keep:
-                    continue
+            nsched += res.nbeh
+            for b in res.lines("BEH", keep=(lambda i: rng.random() <= keep) if keep < 1.0 else None):
                 ncase += 1
                 n += 1
                 case = {"trace": ncase, "max": c.get("Max", 1), "fine": c.get("Fine", False),
